@@ -5,7 +5,7 @@ from . import common
 
 
 def standard(ctx, prop_mods, harness_args, driver_mode, stem, sources, rule, what_corr, what_oracle,
-             assumptions=(), extra_cov=None, nontrivial=None, oracle_keyer=None):
+             assumptions=(), extra_cov=None, nontrivial=None, oracle_keyer=None, also=()):
     proved = common.prove(ctx, prop_mods)
     ctx.cov["source_hashes"] = common.source_hashes(sources)
     if not common.cargo_build(ctx):
@@ -17,8 +17,32 @@ def standard(ctx, prop_mods, harness_args, driver_mode, stem, sources, rule, wha
         rc, out, kv = common.harness(ctx, list(harness_args) + ["--out", ctx.work])
         r = {"rows": 0, "ndiff": 0, "diffs": [], "kinds": {}, "samples": [], "kv": kv, "ok": rc == 0, "out": out, "errors": {}}
     kv = r["kv"]
+    # further streams (harness command, driver mode, stem) whose rows and failures are added
+    extra_fail_files = []
+    for (a_args, a_mode, a_stem) in also:
+        r2 = common.correspond(ctx, a_args, a_mode, a_stem) if a_mode else None
+        if r2 is None:
+            rc2, out2, kv2 = common.harness(ctx, list(a_args) + ["--out", ctx.work])
+            r2 = {"rows": 0, "ndiff": 0, "diffs": [], "kinds": {}, "samples": [], "kv": kv2, "ok": rc2 == 0, "out": out2, "errors": {}}
+        r["rows"] += r2["rows"]
+        r["ndiff"] += r2["ndiff"]
+        r["diffs"] += r2["diffs"]
+        r["samples"] += r2["samples"][:3]
+        r["ok"] = r["ok"] and r2["ok"]
+        r["out"] += r2["out"][-500:]
+        for k, v in r2["kinds"].items():
+            r["kinds"][k] = r["kinds"].get(k, 0) + v
+        for k, v in r2["kv"].items():
+            if k in ("oracle_failures", "deliveries", "commits", "cases", "messages"):
+                kv[k] = str(int(kv.get(k, "0") or 0) + int(v or 0))
+            else:
+                kv.setdefault(a_stem + "." + k, v)
+        extra_fail_files.append(os.path.join(ctx.work, f"{a_stem}.failures"))
     fails_file = os.path.join(ctx.work, f"{stem}.failures")
     fails = [l for l in open(fails_file).read().splitlines() if l.strip()] if os.path.exists(fails_file) else []
+    for ff in extra_fail_files:
+        if os.path.exists(ff) and ff != fails_file:
+            fails += [l for l in open(ff).read().splitlines() if l.strip()]
     samples_file = os.path.join(ctx.work, f"{stem}.samples")
     hsamples = [l[:400] for l in open(samples_file).read().splitlines() if l.strip()][:6] if os.path.exists(samples_file) else []
     n_oracle = int(kv.get("oracle_failures", "0") or 0)
